@@ -111,6 +111,23 @@ def rebadge(ctx, sub, mapping):
                 r2.findings.append(f)
 
 
+
+def inherited_listing(mir, b):
+    """a private helper that is called only from functions whose subtractions are listed wholesale (('f', '*') or ('f', 'closure:*'))
+    carries arithmetic that was lifted out of them: it inherits their reason"""
+    allowed = {f for (f, y) in SUB_OK if y in ('*', 'closure:*')}
+    base = strip_generics(mir.enclosing_fn(b)) if b.kind == 'closure' else b.nid
+    if base in allowed:
+        return None
+    fb = [x for x in mir.bodies if x.nid == base]
+    if not fb or not mirq.private_helper_of(mir, fb[0], allowed, depth=1):
+        return None
+    idx = mir.callers_index()
+    callers = sorted({c[0].nid.split('::{closure')[0] for c in idx.get(base, [])})
+    if not callers:
+        return None
+    return 'private helper of %s: %s' % (callers[0].split('::')[-1], SUB_OK.get((callers[0], '*')) or SUB_OK.get((callers[0], 'closure:*')))
+
 def run(ctx):
     mir = ctx.mir
     ast = ctx.ast
@@ -272,14 +289,14 @@ def run(ctx):
             if guards.implies_ge_at_callers(mir, b, x, y):
                 r6.inst({'body': b.id, 'site': mirq.site(b, i), 'guard': 'comparison dominating every call site of this helper'}, kind=(b.id, i))
                 continue
-            listed = (b.nid, str(y)) in SUB_OK or (b.nid, '*') in SUB_OK
+            listed = (b.nid, str(y)) in SUB_OK or (b.nid, '*') in SUB_OK or inherited_listing(mir, b) is not None
             need = SUB_NEEDS.get(b.nid)
             if listed and need is not None:
                 fld, val = need
                 listed = any(str(v) == str(val) and any(isinstance(e, dict) and e.get('n') == fld for e in pl['p']) for pl, pty, v in mirq.dominating_discriminants(b, i))
             r6.inst({'body': b.id, 'site': mirq.site(b, i), 'subtrahend': str(y)[:40], 'listed': listed}, ok=listed, kind=(b.id, i))
             if listed:
-                r6.exempted(b.nid, SUB_OK.get((b.nid, str(y))) or SUB_OK.get((b.nid, '*')))
+                r6.exempted(b.nid, SUB_OK.get((b.nid, str(y))) or SUB_OK.get((b.nid, '*')) or inherited_listing(mir, b))
             else:
                 bad.append(i)
         # (b) the same arithmetic written on references: `&i64 - i64`, `usize - &usize`, `-&i64` are calls of the core::ops impls for
@@ -299,10 +316,10 @@ def run(ctx):
                     r6.inst({'body': b.id, 'site': mirq.site(b, bb), 'guard': 'dominating comparison'}, kind=(b.id, 'call', bb))
                     continue
             encl = strip_generics(mir.enclosing_fn(b)) if b.kind == 'closure' else None
-            listed = (b.nid, str(y)) in SUB_OK or (b.nid, '*') in SUB_OK or (encl is not None and (encl, 'closure:*') in SUB_OK)
+            listed = (b.nid, str(y)) in SUB_OK or (b.nid, '*') in SUB_OK or (encl is not None and (encl, 'closure:*') in SUB_OK) or inherited_listing(mir, b) is not None
             r6.inst({'body': b.id, 'site': mirq.site(b, bb), 'reference_arithmetic': cn.split(' as ')[0].strip('<') + ' ' + m_.group(3), 'listed': listed}, ok=listed, kind=(b.id, 'call', bb))
             if listed:
-                r6.exempted(b.nid, SUB_OK.get((b.nid, str(y))) or SUB_OK.get((b.nid, '*')) or SUB_OK.get((encl, 'closure:*')))
+                r6.exempted(b.nid, SUB_OK.get((b.nid, str(y))) or SUB_OK.get((b.nid, '*')) or SUB_OK.get((encl, 'closure:*')) or inherited_listing(mir, b))
             else:
                 bad.append(bb)
         if bad:
